@@ -1,0 +1,7 @@
+//go:build !verif
+// +build !verif
+
+package workceptor
+
+// verifStatusWrite is a no-op unless built with the "verif" tag (see verif_hooks.go).
+func verifStatusWrite(_ string, _ int, _ int64, _ int, _ int64) {}
